@@ -499,6 +499,8 @@ def check_searches(repo, rep):
   g = cfgmod.CFG(f.node)
   rd = dataflow.Reaching(g)
   rets = [n for n in g.nodes if n.kind == 'return']
+  # an early `return []` (nothing retained) cannot reorder anything
+  rets = [n for n in rets if not (isinstance(n.ast.value, ast.List) and not n.ast.value.elts)]
   outvars = {norm(n.ast.value) for n in rets if n.ast.value is not None}
   if len(outvars) != 1 or not all(isinstance(n.ast.value, ast.Name) for n in rets):
     rep.undecided('R4/order', 'search_results', 'return shape not understood', f.loc())
